@@ -2,6 +2,7 @@
 //!   rio-probe ffi-seq                 read C18 cases (one JSON per line) on stdin, answer "OK" / "FAIL <why>" per line
 //!   rio-probe ffi-null <index> 0 <stack_kib>     run one combination of the NULL matrix (C07: must simply survive)
 //!   rio-probe script <variant> <len> <stack_kib> tokenise + filter a long raw-text element on a thread with that stack
+//!   rio-probe nested <variant> <len> <stack_kib> a router of <len> rules whose patterns are nested prefixes, same stack
 use rio_verif::alloc_audit::{self, Audit};
 use rio_verif::props::c18;
 use std::io::{BufRead, Write};
@@ -44,6 +45,39 @@ fn run_script(variant: u32, len: usize) {
     let mut out = fb.filter(body, None);
     out.extend(fb.end(None));
     std::hint::black_box(out);
+}
+
+/// Rule sets whose patterns are nested prefixes of one another: /a/@m, /aa/@m, /aaa/@m, ... (variant 0: in the path,
+/// variant 1: in the host). Insertion, matching, tracing, warm-up and removal walk one tree level per rule.
+fn run_nested(variant: u32, len: usize) {
+    use redirectionio::api::Rule;
+    use redirectionio::http::Request;
+    use redirectionio::router::Router;
+    use redirectionio::RouterConfig;
+    let mut router = Router::<Rule>::from_config(RouterConfig::default());
+    for k in 1..=len {
+        let a = "a".repeat(k);
+        let json = if variant == 0 {
+            format!(r#"{{"id":"r{k}","rank":1,"markers":[{{"name":"m","regex":"[0-9]+"}}],"source":{{"path":"/{a}/@m"}},"status_code":301,"target":"/t/@m"}}"#)
+        } else {
+            format!(r#"{{"id":"r{k}","rank":1,"markers":[{{"name":"m","regex":"[0-9]+"}}],"source":{{"host":"{a}@m.example.com","path":"/p"}},"status_code":301,"target":"/t/@m"}}"#)
+        };
+        router.insert(serde_json::from_str::<Rule>(&json).expect("rule"));
+    }
+    let a = "a".repeat(len);
+    let req = if variant == 0 { Request::from_config(&router.config, format!("/{a}/7"), None, None, None, None, None) } else { Request::from_config(&router.config, "/p".to_string(), Some(format!("{a}7.example.com")), None, None, None, None) };
+    let matched = router.match_request(&req).len();
+    let traced = router.trace_request(&req).len();
+    router.cache(None);
+    let again = router.match_request(&req).len();
+    if matched != 1 || again != 1 {
+        eprintln!("nested prefixes: the deepest rule is matched {matched} time(s), {again} after the warm-up");
+        std::process::exit(6);
+    }
+    for k in 1..=len {
+        router.remove(&format!("r{k}"));
+    }
+    std::hint::black_box((traced, router.len()));
 }
 
 fn main() {
@@ -110,6 +144,16 @@ fn main() {
             let h = std::thread::Builder::new().stack_size(stack_kib * 1024).spawn(move || run_script(variant, len)).expect("spawn");
             if h.join().is_err() {
                 eprintln!("panic in the script probe");
+                std::process::exit(101);
+            }
+        }
+        "nested" => {
+            let variant: u32 = args.get(1).and_then(|s| s.parse().ok()).unwrap_or(0);
+            let len: usize = args.get(2).and_then(|s| s.parse().ok()).unwrap_or(0);
+            let stack_kib: usize = args.get(3).and_then(|s| s.parse().ok()).unwrap_or(2048);
+            let h = std::thread::Builder::new().stack_size(stack_kib * 1024).spawn(move || run_nested(variant, len)).expect("spawn");
+            if h.join().is_err() {
+                eprintln!("panic in the nested-prefix probe");
                 std::process::exit(101);
             }
         }
